@@ -9,9 +9,9 @@ ASSUMPTIONS = [
     "arbitrates); StreamArbiter's `~source.valid` test is not meaningful for a multi-bit valid and that case is outside C26",
     "the reset value of the selection is input 0; n >= 1 inputs (the theorems are parametric in n and in the block width)",
     "R-tie configurations: StreamArbiter over StreamInterface(payload_width=1) with n = 1..4 inputs (all 2^(4n+1) input words per "
-    "cycle), and the real HeaderQueueArbiter class with n = 2,3 (thorough: 1..5) producers whose header inputs other than "
+    "cycle), and the real HeaderQueueArbiter class with n = 2 (thorough: 1..5) producers whose header inputs other than "
     "`delayed`/`deferred` are left undriven (0); correspondence at full width: HeaderQueueArbiter (128-bit headers) n = 2 (LUNA's use; "
-    "thorough 1..4), SuperSpeedStreamArbiter n = 4 (LUNA's use), StreamArbiter with 8-bit payload n = 3 (thorough: 8/32-bit, n = 2..8)",
+    "thorough 1..4), SuperSpeedStreamArbiter n = 4 (LUNA's use); thorough adds StreamArbiter with 8/32-bit payloads, n = 2..8",
     "for n = 1 Amaranth drops the zero-width index register; the target wraps the arbiter together with an unrelated toggling "
     "flip-flop only so that the clock stays a netlist input (the translator requires one)",
     "no fairness is claimed: a low-priority input can wait forever behind higher-priority traffic; one bubble cycle on every switch",
@@ -79,13 +79,13 @@ def mk(kind, n, pw=1):
 
 
 def targets(tier):
-    small = [mk("si", n, 1) for n in (1, 2, 3, 4)] + [mk("hqs", n) for n in (2, 3)]
+    small = [mk("si", n, 1) for n in (1, 2, 3, 4)] + [mk("hqs", 2)]
     if tier != "quick":
-        small += [mk("hqs", n) for n in (1, 4, 5)] + [mk("si", 3, 2)]
+        small += [mk("hqs", n) for n in (1, 3, 4, 5)] + [mk("si", 3, 2)]
     for t in small: t.big = False
-    big = [mk("hq", 2), mk("ss", 4), mk("si", 3, 8)]
+    big = [mk("hq", 2), mk("ss", 4)]
     if tier != "quick":
-        big += [mk("hq", 1), mk("hq", 3), mk("hq", 4), mk("ss", 2), mk("si", 5, 8), mk("si", 2, 32), mk("si", 4, 32),
+        big += [mk("si", 3, 8), mk("hq", 1), mk("hq", 3), mk("hq", 4), mk("ss", 2), mk("si", 5, 8), mk("si", 2, 32), mk("si", 4, 32),
                 mk("si", 4, 8), mk("si", 8, 8)]
     for t in big: t.big = True
     return small + big
@@ -175,7 +175,7 @@ LEVEL_TEXT = ("Machine-checked proof. (1) For every number of inputs n >= 1, eve
               "(2) For each R-tie configuration the netlist regenerated from /repo equals the model on all input histories "
               "(certified product reachability), giving C26_<cfg>: netlist run = specification run.")
 LEVEL_NOTE = ("Trusted: Coq kernel + vm_compute, Amaranth elaboration, nir2coq.py/Netlist.v (validated each run against pysim). "
-              "The netlist tie is per configuration: StreamArbiter/StreamInterface with 1-bit payload n=1..4, and HeaderQueueArbiter n=2,3 "
+              "The netlist tie is per configuration: StreamArbiter/StreamInterface with 1-bit payload n=1..4, and HeaderQueueArbiter n=2 "
               "(thorough: 1..5) with only two header bits driven; full-width HeaderQueueArbiter / SuperSpeedStreamArbiter / 8- and 32-bit "
               "StreamArbiter are covered by simulator correspondence (differential test), not by proof. 1-bit valid only. "
               "No liveness/fairness claim.")
